@@ -178,6 +178,9 @@ struct Obs {
     mf_kept: Vec<bool>,
     /// (chunk limit, positions collected by process_stream_new_msgs)
     stream_sets: Vec<(usize, Vec<usize>)>,
+    /// the export plugin configured with the same filter set: keys (reception time, timestamp, mcnt, payload) of the
+    /// messages found in the file it wrote, without its own info messages. None = not observed for this set size
+    export_keys: Option<Vec<(u64, u32, u8, Vec<u8>)>>,
 }
 
 fn observe(fx: &Fixture, set: &[&PoolEntry]) -> Result<Obs, (String, String)> {
@@ -249,7 +252,51 @@ fn observe(fx: &Fixture, set: &[&PoolEntry]) -> Result<Obs, (String, String)> {
             Ok(Ok(v)) => stream_sets.push((chunk, v)),
         }
     }
-    Ok(Obs { fas_kept, fas_unchanged: unchanged, fas_counts: counts, mf_kept, stream_sets })
+    // (d) the export plugin (sets of up to EXPORT_MAX_SET filters): it builds its own container from the same JSON
+    let export_keys = if set.len() <= export_max_set() {
+        let dir = if std::path::Path::new("/dev/shm").is_dir() { "/dev/shm" } else { "/tmp" };
+        let path = format!("{dir}/mc-c12-export-{}-{:?}.dlt", std::process::id(), std::thread::current().id());
+        let _ = std::fs::remove_file(&path);
+        let cfg = json!({"name": "Export", "exportFileName": path, "filters": set.iter().map(|p| serde_json::from_str::<Value>(&p.json).unwrap()).collect::<Vec<_>>()});
+        let r = catch(|| -> Result<(), String> {
+            let mut plugin = adlt::plugins::export::ExportPlugin::from_json(cfg.as_object().unwrap()).map_err(|e| e.to_string())?;
+            use adlt::plugins::plugin::Plugin;
+            for m in &fx.msgs {
+                let mut m = m.clone();
+                plugin.process_msg(&mut m);
+            }
+            drop(plugin);
+            Ok(())
+        });
+        match r {
+            Err(p) => {
+                let _ = std::fs::remove_file(&path);
+                return Err(("panic".into(), format!("{}|ExportPlugin: {}", p.loc, p.msg)));
+            }
+            Ok(Err(e)) => {
+                let _ = std::fs::remove_file(&path);
+                return Err(("export_construct".into(), format!("|ExportPlugin::from_json failed: {e}")));
+            }
+            Ok(Ok(())) => {}
+        }
+        let bytes = std::fs::read(&path).unwrap_or_default();
+        let _ = std::fs::remove_file(&path);
+        let mut keys: Vec<(u64, u32, u8, Vec<u8>)> = adlt::utils::DltMessageIterator::new(0, &bytes[..])
+            .filter(|m| !(m.apid().map(|a| a.as_buf() == b"VsDl").unwrap_or(false) && m.ctid().map(|c| c.as_buf() == b"Info").unwrap_or(false)))
+            .map(|m| (m.reception_time_us, m.timestamp_dms, m.standard_header.mcnt, m.payload.clone()))
+            .collect();
+        keys.sort();
+        Some(keys)
+    } else {
+        None
+    };
+    Ok(Obs { fas_kept, fas_unchanged: unchanged, fas_counts: counts, mf_kept, stream_sets, export_keys })
+}
+
+/// the export plugin is driven for filter sets up to this size (quick 2, thorough 3; set by the run)
+static EXPORT_MAX_SET: std::sync::atomic::AtomicUsize = std::sync::atomic::AtomicUsize::new(2);
+fn export_max_set() -> usize {
+    EXPORT_MAX_SET.load(std::sync::atomic::Ordering::Relaxed)
 }
 
 /// evaluate all clauses; returns (clause, sub-discriminator, detail) of every failing clause
@@ -308,6 +355,14 @@ fn judge(fx: &Fixture, set: &[&PoolEntry]) -> Vec<(String, String, String)> {
         if *set_ != want && !v.iter().any(|(c, _, _)| c == "mf_selection") {
             v.push(("stream_selection".into(), if *chunk == usize::MAX { "unlimited_chunk" } else { "chunked" }.into(), format!("process_stream_new_msgs (chunk limit {chunk}) collected positions {:?}, statement keeps {:?}", set_, want)));
             break;
+        }
+    }
+    // the export plugin writes exactly the messages the set matcher keeps (event clause included)
+    if let Some(keys) = &obs.export_keys {
+        let mut want: Vec<(u64, u32, u8, Vec<u8>)> = (0..n).filter(|i| exp_mf[*i]).map(|i| { let m = &fx.msgs[i]; (m.reception_time_us, m.timestamp_dms, m.standard_header.mcnt, m.payload.clone()) }).collect();
+        want.sort();
+        if *keys != want && !v.iter().any(|(c, _, _)| c == "mf_selection") {
+            v.push(("export_selection".into(), if keys.len() < want.len() { "exported_too_few" } else { "exported_other" }.into(), format!("the export plugin wrote {} messages, the statement keeps {} of {n}", keys.len(), want.len())));
         }
     }
     // agreement where both apply
@@ -433,7 +488,7 @@ impl Prop for C12 {
             rule: "all ordered tuples (superset of the multisets) of <= k filters from a pool of 19 (positive / negative / event / marker x enabled / disabled x plain / negated, overlapping ECU / APID / payload / lifecycle criteria) x a 30-message stream (2 ECUs x {no extended header, 2 APIDs} x 2 lifecycles x 2 texts + 6 repeated messages), through filter_as_streams, through match_filters on the container built by StreamContext::from, and through the remote stream path process_stream_new_msgs (called like the server loop, chunk limits 1 / 7 / unlimited); searches: the paged stream_search sessions of the C16 explorer (stream filter set x search filter set x page size x start, following next_search_idx) on the real server handlers. Oracle from the statement (single-filter decisions from the independent C11 evaluator): selection, forwarded messages equal to the received ones, original order, passed + filtered = received and passed = number forwarded, event clause for match_filters, agreement of both implementations when no enabled event filter is present. A case is non-trivial when the statement keeps some but not all messages.".into(),
             assumptions: vec![
                 "filter_as_streams is the convert path: the statement's event clause ('for streams and searches') is applied to match_filters only".into(),
-                "the export plugin is not driven; it builds its container like StreamContext::from (enabled filters only) and calls the same match_filters".into(),
+                "the export plugin is driven for filter sets of up to 2 (thorough 3) filters: the file it writes (without its info messages) must hold exactly the messages the statement keeps".into(),
                 "the error path of filter_as_streams (downstream send fails) is outside the statement".into(),
             ],
             budget_s: (35, 1200),
@@ -454,6 +509,7 @@ impl Prop for C12 {
     }
 
     fn run(&self, ctx: &mut Ctx) {
+        EXPORT_MAX_SET.store(ctx.tier.pick(2, 3), std::sync::atomic::Ordering::Relaxed);
         let fx = Fixture::new();
         ctx.extra_set("stream_messages", json!(fx.msgs.len()));
         ctx.extra_set("pool", json!(fx.pool.iter().map(|p| p.name).collect::<Vec<_>>()));
